@@ -55,15 +55,10 @@ func cookieAdd(lister *ssa.Function) (int64, token.Pos, bool) {
 // resumeAdd: in the scanner (dir.Apply / ApplyEnts), the constant b such that
 // the scan for a non-zero cookie starts at cookie + b.
 func resumeAdd(scan *ssa.Function) (int64, bool) {
-	var start *ssa.Parameter
-	for _, p := range scan.Params {
-		if p.Name() == "start" {
-			start = p
-		}
-	}
-	if start == nil {
+	if len(scan.Params) < 3 {
 		return -1, false
 	}
+	start := scan.Params[2] // (dip, op, start, ...)
 	// the loop's offset phi: its non-back-edge input is start or start+b (via a phi on start != 0)
 	var b int64
 	found := false
@@ -133,14 +128,7 @@ func ruleP2(c *Ctx, id string) {
 			continue
 		}
 		// loop offset phi: a phi in a cycle whose back-edge inputs are phi + const
-		var offPhi *ssa.Phi
-		for _, b := range s.Blocks {
-			for _, in := range b.Instrs {
-				if phi, ok := in.(*ssa.Phi); ok && phi.Comment == "off" {
-					offPhi = phi
-				}
-			}
-		}
+		offPhi := stepPhi(s, constOfPkg(P, "dir", "DIRENTSZ"))
 		if offPhi == nil {
 			R.Undecided(id, spec+"|offset variable", P.Pos(s.Pos()), "the scan loop has an offset variable", "no phi named off")
 			continue
@@ -164,12 +152,7 @@ func ruleP2(c *Ctx, id string) {
 		}
 		R.Check(okInc && nBack > 0, id, spec+"|offset strictly increases", P.Pos(offPhi.Pos()), "every back edge of the scan loop carries off + c with c > 0", fmt.Sprintf("%d back edges, all off + positive constant", nBack), "a path through the loop body does not advance the offset: the scan never terminates")
 		// callback before limit test
-		var fparam *ssa.Parameter
-		for _, p := range s.Params {
-			if p.Name() == "f" {
-				fparam = p
-			}
-		}
+		fparam := funcParam(s)
 		isCb := func(in ssa.Instruction) bool {
 			cc := callCommon(in)
 			return cc != nil && !cc.IsInvoke() && cc.Value == ssa.Value(fparam)
@@ -182,8 +165,13 @@ func ruleP2(c *Ctx, id string) {
 				if v == nil {
 					continue
 				}
-				if pm, ok := stripConv(v).(*ssa.Parameter); ok && (strings.Contains(pm.Name(), "count")) {
-					isLimit = true
+				// the size limits are the integer parameters between the start cookie and the callback
+				if pm, ok := stripConv(v).(*ssa.Parameter); ok {
+					for i, q := range s.Params {
+						if q == pm && i > 2 && q != fparam {
+							isLimit = true
+						}
+					}
 				}
 			}
 			if !isLimit {
@@ -207,12 +195,7 @@ func ruleP3(c *Ctx, id string) {
 	if ap == nil || ls == nil {
 		return
 	}
-	var fparam *ssa.Parameter
-	for _, p := range ap.Params {
-		if p.Name() == "f" {
-			fparam = p
-		}
-	}
+	fparam := funcParam(ap)
 	for _, b := range ap.Blocks {
 		for _, in := range b.Instrs {
 			cc := callCommon(in)
@@ -227,21 +210,50 @@ func ruleP3(c *Ctx, id string) {
 			R.Check(sameEnt, id, "dir.Apply|name and number of one entry", P.Pos(in.Pos()), "the callback receives name and inum of the same decoded entry", "same dirEnt value", "name and number come from different entries")
 			okAcq := true
 			nsrc := 0
-			for v := range bwdSources(ipv) {
+			// judge: one producer of the inode value, under the substitution of the helper scope it lives in
+			var judge func(v ssa.Value, sub Subst, depth int)
+			judge = func(v ssa.Value, sub Subst, depth int) {
 				cl, ok := v.(*ssa.Call)
 				if !ok {
-					continue
+					return
 				}
 				cal := cl.Call.StaticCallee()
-				if cal == nil || !(V.Acquirers[cal] || cal == V.GetInodeUnlocked) {
-					okAcq = false
-					continue
+				if cal != nil && (V.Acquirers[cal] || cal == V.GetInodeUnlocked) {
+					nsrc++
+					_, afl, abase, _ := loadedFieldS(argN(cl, 0), sub)
+					if afl != "inum" || abase != ibase {
+						okAcq = false
+					}
+					return
 				}
-				nsrc++
-				_, afl, abase, _ := loadedField(argN(cl, 0))
-				if afl != "inum" || abase != ibase {
+				// a private helper that returns the acquired inode: look at what it returns
+				if cal == nil || !isPrivateHelper(cal) || cal.Blocks == nil || depth > 1 {
 					okAcq = false
+					return
 				}
+				hs := Subst{}
+				for i, p := range cal.Params {
+					if i < len(cl.Call.Args) {
+						hs[p] = sub.resolve(cl.Call.Args[i])
+					}
+				}
+				for _, b := range cal.Blocks {
+					r, isR := b.Instrs[len(b.Instrs)-1].(*ssa.Return)
+					if !isR {
+						continue
+					}
+					for _, res := range r.Results {
+						if !isNamed(res.Type(), "/inode", "Inode") {
+							continue
+						}
+						for w := range bwdSources(res) {
+							judge(w, hs, depth+1)
+						}
+					}
+				}
+			}
+			for v := range bwdSources(ipv) {
+				judge(v, Subst{}, 0)
 			}
 			R.Check(okAcq && nsrc > 0, id, "dir.Apply|inode of the entry's number", P.Pos(in.Pos()), "the inode passed to the callback was acquired for de.inum of this entry", fmt.Sprintf("%d acquisition sources, all on de.inum", nsrc), "the attributes returned for a name are those of another object")
 		}
